@@ -773,3 +773,10 @@ func Stack() []byte {
 	}
 	return []byte("(stack trace omitted in simulation)")
 }
+
+// IsAbort reports whether a recovered panic value is the simulator's own unwinding signal;
+// harness code that recovers panics must re-panic it.
+func IsAbort(p interface{}) bool {
+	_, ok := p.(abortSentinel)
+	return ok
+}
